@@ -338,12 +338,14 @@ Definition expr_is_call_lit (e : expr) : bool :=
   match e with EConst (CStr s) => str_eqb s (lit "__call__") | _ => false end.
 Definition last_is_call_lit (args : list expr) : bool :=
   match rev args with a :: _ => expr_is_call_lit a | [] => false end.
-Definition hasattr_step (e : expr) : expr :=
+Definition hasattr_fires (cfg : hasattr_cfg) (a : expr) (rest : list expr) : bool :=
+  last_is_call_lit (a :: rest) && (negb (ha_two_args cfg) || match rest with [_] => true | _ => false end).
+Definition hasattr_step (cfg : hasattr_cfg) (e : expr) : expr :=
   match e with
-  | ECall BHasattr (a :: rest) => if last_is_call_lit (a :: rest) then ECall BCallable [a] else e
+  | ECall BHasattr (a :: rest) => if hasattr_fires cfg a rest then ECall BCallable [a] else e
   | _ => e
   end.
-Definition rw_hasattr : expr -> expr := bu hasattr_step.
+Definition rw_hasattr (cfg : hasattr_cfg) : expr -> expr := bu (hasattr_step cfg).
 
 (** * top-down transformers whose [leave_X] works on the ORIGINAL node: where the node function answers, the node is replaced
     by something built from its original parts (rewrites made below it are discarded); elsewhere the children are visited *)
